@@ -91,3 +91,34 @@ func ByteMutants(seed int64, base []string, n int) []string {
 	}
 	return out
 }
+
+// NumberForms builds numeric literals systematically: every integer part x
+// fraction x exponent combination (including digits 8 and 9 in every
+// position, which the octal-looking "0" prefix must not reject or trip over),
+// radix forms with every digit class, and each literal in three contexts.
+func NumberForms() []string {
+	ints := []string{"", "0", "1", "7", "8", "9", "10", "08", "00", "0_1", "1_0", "1__0", "_1", "1_"}
+	fracs := []string{"", ".", ".0", ".5", ".25", ".89", ".8_9", "._5"}
+	exps := []string{"", "e0", "e7", "e8", "e9", "E+8", "e-18", "e+09", "E-9", "e", "e+", "e1_0", "e_1"}
+	var lits []string
+	for _, i := range ints {
+		for _, f := range fracs {
+			for _, e := range exps {
+				if i == "" && (f == "" || f == ".") {
+					continue
+				}
+				lits = append(lits, i+f+e)
+			}
+		}
+	}
+	for _, p := range []string{"0x", "0X", "0o", "0O", "0b", "0B"} {
+		for _, d := range []string{"", "0", "1", "7", "8", "9", "a", "F", "g", "1_0", "_1", "1_", "12", "18", "1f", "1.5", "1e1", "1e9"} {
+			lits = append(lits, p+d)
+		}
+	}
+	var out []string
+	for _, l := range lits {
+		out = append(out, l, "-"+l, "$ ? (@ < "+l+")", "$["+l+"]", l+".a", l+" .a", "("+l+").type()")
+	}
+	return out
+}
